@@ -40,20 +40,25 @@ static token * mk(unsigned short type, size_t start, size_t len) {
 static void add_child(token * p, token * c) { if (!p->child) { p->child = c; } else { p->child->tail->next = c; c->prev = p->child->tail; } p->child->tail = c; }
 
 /* one line of `ninl` inline tokens (TEXT_PLAIN, 1 byte each) optionally led by an indent-ish token */
+static token * g_inl[4]; static unsigned g_ninl;
 static token * mk_line(unsigned short type, size_t * pos, unsigned lead, unsigned ninl) {
 	token * l = mk(type, *pos, 0);
 	if (lead == 1) { add_child(l, mk(NON_INDENT_SPACE, *pos, 1)); (*pos)++; }
 	if (lead == 2) { add_child(l, mk(INDENT_SPACE, *pos, 4)); (*pos) += 4; }
 	if (lead == 3) { add_child(l, mk(INDENT_TAB, *pos, 1)); (*pos)++; }
-	for (unsigned i = 0; i < 2; i++) { if (i < ninl) { add_child(l, mk(TEXT_PLAIN, *pos, 1)); (*pos)++; } }
+	for (unsigned i = 0; i < 2; i++) { if (i < ninl) { token * x = mk(TEXT_PLAIN, *pos, 1); g_inl[g_ninl++] = x; add_child(l, x); (*pos)++; } }
 	add_child(l, mk(TEXT_NL, *pos, 1)); (*pos)++;
 	l->len = *pos - l->start;
 	return l;
 }
 
 /* every shape is CONCRETE (loops with constant bounds): symbolic line types / shapes make CBMC run out of memory */
+/* the harness's inline tokens are TEXT_PLAIN; in a BLOCK_DEFINITION the first one of a LINE_DEFINITION (the colon in real
+ * input) is retyped MARKER_DEFLIST_COLON by the function -- still the same token, still present */
+/* ghost: the inline tokens put into the lines, by identity (declared above) */
+static bool is_inl(token * t) { bool r = false; for (unsigned i = 0; i < 4; i++) { if (i < g_ninl && g_inl[i] == t) { r = true; } } return r; }
 static void one_case(mmd_engine * e, unsigned i1, unsigned lead1, unsigned n1, bool two, unsigned i2) {
-	size_t pos = 0;
+	size_t pos = 0; g_ninl = 0;
 	token * block = mk(BTYPE, 0, 0);
 	token * l1 = mk_line(T_LINES[i1], &pos, lead1, n1);
 	add_child(block, l1);
@@ -67,8 +72,8 @@ static void one_case(mmd_engine * e, unsigned i1, unsigned lead1, unsigned n1, b
 		if (c) {
 			if (c->prev != prev) { linked = false; }
 			if (is_line_type(c->type) && !writer_has_arm(c->type)) { closed = false; }
-			if (c->type == TEXT_PLAIN) { plain++; }
-			if (c->child) { token * g = c->child; for (int j = 0; j < 5; j++) { if (g) { if (g->type == TEXT_PLAIN) { plain++; } g = g->next; } } }
+			if (is_inl(c)) { plain++; }
+			if (c->child) { token * g = c->child; for (int j = 0; j < 5; j++) { if (g) { if (is_inl(g)) { plain++; } g = g->next; } } }
 			prev = c; c = c->next;
 		}
 	}
